@@ -453,7 +453,8 @@ def _exec_vget(spec):
 
 
 def _exec_slen(spec):
-    from serif.typeutils import slice_length
+    from values import slice_length_fn
+    slice_length = slice_length_fn()
     s = slice(*spec["s"])
     try:
         py = len(range(*s.indices(spec["n"])))
@@ -585,7 +586,8 @@ def _tabwire(it, r):
 
 def _obs_table_result(it, r, key_spec):
     from serif import Vector, Table
-    from serif.table import Row
+    from values import row_class
+    Row = row_class()
     if key_spec["t"] == "tuple" and [i["t"] for i in key_spec["items"]] == ["int", "int"]:
         return {"cell": it.uid(r)}
     if r is None:
